@@ -27,6 +27,15 @@ Definition conv_de_bool (req : Req) (v : bool) : Outcome DVal :=
   | _ => Err
   end.
 
+(* reading a Float32 / Float64 column (col32 = the column is Float32) as f32 / f64 (req32 = an f32 is requested): the same width is
+   handed out bit for bit, the other width through the cast of FloatOfInt.v (`as f64` is exact, `as f32` rounds to nearest, ties to even) *)
+Definition conv_de_float (col32 req32 : bool) (bits : Z) : Z :=
+  match col32, req32 with
+  | true, true | false, false => bits
+  | true, false => f64_of_f32 bits
+  | false, true => f32_of_f64 bits
+  end.
+
 Definition dval_eqb (a c : DVal) : bool :=
   match a, c with
   | VdInt x, VdInt y | VdChar x, VdChar y => x =? y
